@@ -1,0 +1,125 @@
+//! Verification hooks (compiled only with `--cfg smartcore_verif`).
+//!
+//! Thin public wrappers around crate-private items so that an external conformance harness
+//! can drive them in isolation.  Nothing here changes the behaviour of the library.
+use std::cell::RefCell;
+use std::collections::VecDeque;
+use std::fmt::Debug;
+
+use crate::algorithm::neighbour::bbd_tree::BBDTree;
+use crate::algorithm::sort::heap_select::HeapSelection;
+use crate::linalg::Matrix;
+use crate::math::num::RealNumber;
+
+pub use crate::algorithm::sort::quick_sort::QuickArgSort;
+pub use crate::optimization::first_order::gradient_descent::GradientDescent;
+pub use crate::optimization::first_order::lbfgs::LBFGS;
+pub use crate::optimization::first_order::{FirstOrderOptimizer, OptimizerResult};
+pub use crate::optimization::line_search::{Backtracking, LineSearchMethod, LineSearchResult};
+pub use crate::optimization::{FunctionOrder, DF, F};
+
+/// Public handle on the crate-private bounded selection heap.
+#[derive(Debug)]
+pub struct HeapHandle<T: PartialOrd + Debug + Clone> {
+    heap: HeapSelection<T>,
+}
+
+impl<T: PartialOrd + Debug + Clone> HeapHandle<T> {
+    /// see `HeapSelection::with_capacity`
+    pub fn with_capacity(k: usize) -> Self {
+        HeapHandle {
+            heap: HeapSelection::with_capacity(k),
+        }
+    }
+    /// see `HeapSelection::add`
+    pub fn add(&mut self, element: T) {
+        self.heap.add(element)
+    }
+    /// see `HeapSelection::heapify`
+    pub fn heapify(&mut self) {
+        self.heap.heapify()
+    }
+    /// see `HeapSelection::peek`
+    pub fn peek(&self) -> T {
+        self.heap.peek().clone()
+    }
+    /// overwrite the root through `HeapSelection::peek_mut`
+    pub fn set_root(&mut self, element: T) {
+        *self.heap.peek_mut() = element;
+    }
+    /// read the root through `HeapSelection::peek_mut`
+    pub fn root(&mut self) -> T {
+        self.heap.peek_mut().clone()
+    }
+    /// see `HeapSelection::get`
+    pub fn get(self) -> Vec<T> {
+        self.heap.get()
+    }
+}
+
+/// Public handle on the crate-private BBD tree used by k-means.
+#[derive(Debug)]
+pub struct BbdHandle<T: RealNumber> {
+    tree: BBDTree<T>,
+    n: usize,
+    d: usize,
+}
+
+impl<T: RealNumber> BbdHandle<T> {
+    /// build the tree over the rows of `data`
+    pub fn new<M: Matrix<T>>(data: &M) -> Self {
+        let (n, d) = data.shape();
+        BbdHandle {
+            tree: BBDTree::new(data),
+            n,
+            d,
+        }
+    }
+    /// one filtering step: (membership, counts, sums, distortion)
+    pub fn clustering(&self, centroids: &[Vec<T>]) -> (Vec<usize>, Vec<usize>, Vec<Vec<T>>, T) {
+        let k = centroids.len();
+        let mut sums = vec![vec![T::zero(); self.d]; k];
+        let mut counts = vec![0usize; k];
+        let mut membership = vec![0usize; self.n];
+        let distortion = self
+            .tree
+            .clustering(centroids, &mut sums, &mut counts, &mut membership);
+        (membership, counts, sums, distortion)
+    }
+}
+
+thread_local! {
+    static SCHEDULE: RefCell<VecDeque<Vec<usize>>> = RefCell::new(VecDeque::new());
+}
+
+/// Queue visiting orders for the SVC trainer on this thread: every call of its `permutate`
+/// consumes one queued order (when its length matches) instead of drawing a random one.
+pub fn push_schedule(orders: Vec<Vec<usize>>) {
+    SCHEDULE.with(|s| {
+        let mut q = s.borrow_mut();
+        q.clear();
+        for o in orders {
+            q.push_back(o);
+        }
+    });
+}
+
+/// Number of queued visiting orders not yet consumed.
+pub fn schedule_left() -> usize {
+    SCHEDULE.with(|s| s.borrow().len())
+}
+
+/// Drop all queued visiting orders.
+pub fn clear_schedule() {
+    SCHEDULE.with(|s| s.borrow_mut().clear());
+}
+
+pub(crate) fn next_schedule(n: usize) -> Option<Vec<usize>> {
+    SCHEDULE.with(|s| {
+        let mut q = s.borrow_mut();
+        match q.front() {
+            Some(o) if o.len() == n => q.pop_front(),
+            _ => None,
+        }
+    })
+}
